@@ -167,6 +167,13 @@ def run(ctx):
         for c in b.calls():
             if c.is_("core::mem::take", "core::mem::replace") and c.args and "HashMap<" in b.local_ty(c.dest["l"]):
                 out.append(c)
+            elif not (c.name == "drain" and "HashMap" in c.def_):
+                # a private one-line accessor of the storage that is exactly such a drain of its receiver's map (`self.storage.drain()`)
+                for hb in local_callee_bodies(F, c):
+                    hd = [x for x in hb.calls() if x.name == "drain" and "HashMap" in x.def_]
+                    if hb.crate == AG and hb.kind != "Closure" and len(hd) == 1 and len(hb.calls()) <= 2 and not hd[0].dest.get("p") and \
+                            (hd[0].dest["l"] == 0 or ("call", hd[0].bb) in Prov(hb).local(0)) and any(x[0] == "arg" and x[1] == 1 for x in Prov(hb).operand(hd[0].args[0])):
+                        out.append(c)
         return out
     fl = [b for b in F.all_bodies(AG) if b.name == "flush" and b.impl and (b.impl.get("trait") or "").endswith("::FlushableSink") and _emptiers(b)]
     ctx.floor("R10.2", "flush bodies draining a map", len(fl), 1)
@@ -339,7 +346,7 @@ def run(ctx):
                 ok_t, err_t = tg.get(0), tg.get(1, oth)
         merges = [x for x in cb.calls() if x.is_trait_method("AggregateSink", "merge") or x.is_trait_method("RootSink", "merge")]
         flushes = [x for x in cb.calls() if x.is_trait_method("FlushableSink", "flush")]
-        sends = [x for x in cb.calls() if x.is_in("tokio::sync::oneshot", "Sender::send")]
+        sends = _direct_or_helper(F, cb, lambda x: x.is_in("tokio::sync::oneshot", "Sender::send"))
         # Entry arm: payload moved into exactly one merge
         starts = []
         for i in cb.live_blocks():
@@ -398,7 +405,7 @@ def run(ctx):
         par = (b.d.get("direct_parent") or b.d.get("parent") or "")
         if not par.endswith("::flush"):
             continue
-        sends_ = [c for c in b.calls() if c.is_in("std::sync::mpsc", "Sender::send", "SyncSender::send", "SyncSender::try_send")]
+        sends_ = _direct_or_helper(F, b, lambda c: c.is_in("std::sync::mpsc", "Sender::send", "SyncSender::send", "SyncSender::try_send"))
         if not sends_:
             continue
         nreq += 1
@@ -426,7 +433,7 @@ def run(ctx):
         ctx.check(bool(polls) and not (set(ready) & reach_l({c.bb for c in polls})), "R10.10", key + "#completes-only-after-acknowledgement", loc(b),
                   "the flush future can complete without awaiting the worker's acknowledgement", "every completion passes the await of the acknowledgement")
         # the awaited receiver is the partner of the sender that travels in the request
-        chans = [c for c in b.calls() if c.is_in("tokio::sync::oneshot", "channel")]
+        chans = _direct_or_helper(F, b, lambda c: c.is_in("tokio::sync::oneshot", "channel"))
         paired = False
         for ch in chans:
             sent = any(any(x[0] in ("call", "callf") and x[1] == ch.bb for x in pr.operand(a)) for c in sends_ for a in c.args[1:])
@@ -605,3 +612,22 @@ def run(ctx):
         ctx.check(some and all(x == 1 for x in some) and all(x == 0 for x in none), "R10.6", fnkey(b0) + "#take-then-merge-once", loc(b),
                   "destructor merges %s time(s) when it holds a value and %s when not" % (sorted(set(some)), sorted(set(none))))
     return EXPL
+
+
+
+def _direct_or_helper(F, b, pred):
+    """calls of b that satisfy pred, or that go to a private function of the crate which performs such a call on every path (a named
+    step: `self.enqueue(msg)`, `request.acknowledge()`, `FlushRequest::new()`)"""
+    out = []
+    for c in b.calls():
+        if pred(c):
+            out.append(c)
+            continue
+        for hb in local_callee_bodies(F, c):
+            if hb.crate != AG or hb.kind == "Closure" or (hb.impl or {}).get("trait"):
+                continue
+            inner = [x.bb for x in hb.calls() if pred(x)]
+            if inner and hb.must_pass(inner) and len(hb.calls()) <= 4:
+                out.append(c)
+                break
+    return out
